@@ -16,8 +16,8 @@ import gram  # noqa: E402
 import gramcheck  # noqa: E402
 import vlib  # noqa: E402
 
-QUICK = ["Expr2", "ExprS3", "FbS3", "FbStr3", "ProgStr3", "FuncS3", "ProgS3", "ConfigS5", "Stmt2", "Types3", "Fb2", "Prog2", "Func2", "Sfc3", "Config3", "Lib1"]
-THOROUGH = ["Expr3", "ExprS4", "FbS4", "FbStr4", "ProgStr4", "FuncS4", "ProgS4", "ConfigS5", "Stmt3", "Types4", "Fb3", "Prog3", "Func3", "Sfc4", "Config4", "Lib2"]
+QUICK = ["SwExpr", "SwStmt", "SwTypes", "SwFb", "SwProg", "SwFunc", "SwSfc", "SwConfig","Expr2", "ExprS3", "FbS3", "FbStr3", "ProgStr3", "FuncS3", "ProgS3", "ConfigS5", "Stmt2", "Types3", "Fb2", "Prog2", "Func2", "Sfc3", "Config3", "Lib1"]
+THOROUGH = ["SwExpr", "SwStmt", "SwTypes", "SwFb", "SwProg", "SwFunc", "SwSfc", "SwConfig","Expr3", "ExprS4", "FbS4", "FbStr4", "ProgStr4", "FuncS4", "ProgS4", "ConfigS5", "Stmt3", "Types4", "Fb3", "Prog3", "Func3", "Sfc4", "Config4", "Lib2"]
 
 
 def main():
@@ -54,6 +54,7 @@ def main():
     cov["derivations"] = nds
     cov["sentences_parsed"] = stats["cases"]
     cov["traces_validated_against_impl"] = stats["cases"]
+    cov["literal_pool_entries_all_exercised"] = gramcheck.pool_obligation(labels)
     cov["production_labels_exercised"] = len(labels)
     cov["production_labels"] = sorted(labels)
     cov["samples"].append({"text": gram.spell(d0["toks"])[0], "denotes": gram.denote(d0["val"]), "labels": d0["labs"]})
